@@ -1740,6 +1740,23 @@ func ruleC15Escape(r *Run) {
 				}
 				return false
 			})
+			// the substituted path is final: re-reading URL.Path and storing a rewritten version (stripping brackets,
+			// collapsing slashes, ...) also rewrites the VALUES that were substituted into it
+			if via == "" && flowsFromDeep(st.Val, func(v ssa.Value) bool {
+				ld, isLd := v.(*ssa.UnOp)
+				if !isLd || ld.Op != token.MUL {
+					return false
+				}
+				fa2, isFA := ld.X.(*ssa.FieldAddr)
+				if !isFA {
+					return false
+				}
+				fv2 := fieldVar(fa2.X.Type(), fa2.Field)
+				return fv2 != nil && fv2.Name() == "Path" && fv2.Pkg() != nil && fv2.Pkg().Path() == "net/url"
+			}) {
+				r.Check(rule, fmt.Sprintf("%s:URL.Path store#%d", FuncName(f), n), w.InstrPos(in), false, "the built URL's path is read back, rewritten and stored again: whatever the rewrite removes or replaces (brackets of optional parts, slashes, dots) is also removed from the values that were substituted for the variables, so a value containing such characters does not come back from the router")
+				return
+			}
 			r.Check(rule, fmt.Sprintf("%s:URL.Path store#%d", FuncName(f), n), w.InstrPos(in), via == "", map[bool]string{true: "the text stored in url.URL.Path does not derive from an escaping function: net/url escapes it once when the URL is rendered and the server decodes it once", false: "the text stored in url.URL.Path derives from " + via + ": URL.Path is the decoded form and is escaped again when the URL is rendered, so a value with a space, '%', '?', '#' or non-ASCII text comes back from the router with its escapes still in it (or no longer satisfies the variable's regex)"}[via == ""])
 		})
 	}
